@@ -219,6 +219,14 @@ func (x *Run) modelInvoke(fr *Frame, st *State, recv Val, m *types.Func, args []
 		t := app(vf, recv.T, args[0].T)
 		v := Val{T: t, S: SIface, Ty: m.Type().(*types.Signature).Results().At(0).Type()}
 		return single(st, v), true
+	case "(net.Error).Timeout", "(net.Error).Temporary":
+		// attributes of an error value: deterministic functions of the value
+		f := x.d.fun("neterr."+strings.ToLower(m.Name()), []Sort{SIface}, SBool)
+		r := Val{T: app(f, recv.T), S: SBool, Ty: types.Typ[types.Bool]}
+		if !fr.inPure() {
+			st.events = append(st.events, Event{Name: "invoke:" + full, Args: append([]Val{recv}, args...), Ret: r})
+		}
+		return single(st, r), true
 	case "(error).Error":
 		f := x.d.fun("errmsg", []Sort{SIface}, SStr)
 		return single(st, Val{T: app(f, recv.T), S: SStr, Ty: types.Typ[types.String]}), true
